@@ -116,15 +116,8 @@ Proof.
   unfold is_tfb, Timeframes. cbn [map snd existsb]. rewrite !orb_true_iff, !Z.eqb_eq.
   unfold nsPerSec, utils_Day.
   intros H. repeat (destruct H as [H|H]; [subst tf|]); try discriminate H.
-  - exists 1, 86400; lia.
-  - exists 10, 8640; lia.
-  - exists 30, 2880; lia.
-  - exists 60, 1440; lia.
-  - exists 300, 288; lia.
-  - exists 900, 96; lia.
-  - exists 1800, 48; lia.
-  - exists 3600, 24; lia.
-  - exists 14400, 6; lia.
-  - exists 7200, 12; lia.
-  - exists 86400, 1; lia.
+  (* one witness pair per table entry, whatever the order of the table *)
+  all: first [ exists 1, 86400; lia | exists 10, 8640; lia | exists 30, 2880; lia | exists 60, 1440; lia
+             | exists 300, 288; lia | exists 900, 96; lia | exists 1800, 48; lia | exists 3600, 24; lia
+             | exists 7200, 12; lia | exists 14400, 6; lia | exists 86400, 1; lia ].
 Qed.
